@@ -18,8 +18,9 @@ import (
 
 var segsCollide = []string{"a", "b", "ab", "bb"}
 var segsPlain = []string{"com", "phodal", "core", "domain", "infra", "api", "util", "a", "b", "ab", "bb", "ba", "x1", "p_q", "数据"}
-var typeNames = []string{"A", "B", "AB", "BB", "C", "Repo", "Service", "Entity", "Main", "Main", "Ab", "A1", "Ledge", "Boot", "Väl", "T$1"}
-var methodNames = []string{"run", "get", "main", "main", "apply", "Main"}
+var typeNames = []string{"A", "B", "AB", "BB", "C", "Repo", "Service", "Entity", "Main", "Main", "Ab", "A1", "Ledge", "Boot", "Väl", "T$1",
+	"AppMain", "MainApp", "main", "Mai"}
+var methodNames = []string{"run", "get", "main", "main", "apply", "Main", "mainLoop", "domain", "mai"}
 
 func pick(r *rand.Rand, xs []string) string { return xs[r.Intn(len(xs))] }
 
